@@ -162,6 +162,16 @@ def cases(tier: str, seed: int) -> list[dict]:
     for kind in ("face", "node"):
         out.append(_wound_case(w8, kind, [("t", 2)], ["t"] + list(W.kind_dims(w8, kind)), "f8", "mc"))
         out.append(_wound_case(w8, kind, [("k", 3)], list(W.kind_dims(w8, kind)) + ["k"], "f4", "mc"))
+    # a mesh whose edge connectivity is stored transposed, (Two, edge): only the edge_dimension attribute names the dimension
+    mt = W.mesh_from_squares([["Q", "A"], ["B", "Q"]])
+    mt["edges"] = [list(e) for e in W.mesh_edges(mt["faces"])]
+    wt = W.counts_world("ugrid", nface=len(mt["faces"]), nnode=len(mt["nodes"]), nedge=len(mt["edges"]))
+    wt["mesh"] = mt
+    wt["enc"] = {"edge_dim": "declared", "supplied": ["en"], "transposed": True}
+    out.append(_refused_case(wt, "mc"))
+    for kind in ("edge", "face"):
+        out.append(_wound_case(wt, kind, [("t", 2)], ["t"] + list(W.kind_dims(wt, kind)), "f8", "mc"))
+        out.append(_wound_case(wt, kind, [], list(W.kind_dims(wt, kind)), "i4", "mc"))
     # seeded larger shapes
     for _ in range(10 if tier == "quick" else 150):
         conv = rng.choice(W.ALL_CONVS)
